@@ -107,6 +107,30 @@ func runC10(r *Run) {
 	r.rule("C10.R2", "avs precompile tx handlers: the AVS/task-contract address field of the params object is assigned from <contract param>.CallerAddress before the keeper call and nowhere else; owner membership (slices.Contains(owners, CallerAddress)) dominates the store mutation in the handler or in the keeper arm it selects", 10)
 	r.rule("C10.R3", "Msg handlers: the acting address handed to the keeper derives from the request field that GetSigners reads", 20)
 	r.rule("C10.R4", "every UpdateParams handler: `authority != msg.Authority` (optionally conjoined with IsMainnet(chainID), nothing weaker) leads to an error return before any call with a write effect; MsgUpdateParams.GetSigners reads Authority", 14)
+	// the network test used by the authority checks covers every revision of the mainnet chain id
+	if mv := w.View("utils", "IsMainnet"); mv == nil {
+		r.bad("C10.R4", "IsMainnet|anchor", "-", "anchor", "utils.IsMainnet not found")
+	} else {
+		r.saw(mv.ID())
+		ok, why := false, "IsMainnet is not `strings.HasPrefix(chainID, <constant>)`"
+		if len(mv.Decl.Body.List) == 1 {
+			if rs, isRet := mv.Decl.Body.List[0].(*ast.ReturnStmt); isRet && len(rs.Results) == 1 {
+				if c, isC := stripParens(rs.Results[0]).(*ast.CallExpr); isC && strings.HasSuffix(exprString(c.Fun), "HasPrefix") && len(c.Args) == 2 && isParamOf(mv, c.Args[0]) {
+					if cv := mv.constOf(c.Args[1]); cv != nil {
+						val := strings.Trim(cv.ExactString(), `"`)
+						i := strings.LastIndex(val, "-")
+						rev := i >= 0 && i+1 < len(val) && strings.Trim(val[i+1:], "0123456789") == ""
+						if rev {
+							why = "IsMainnet tests the prefix " + val + ", which names one revision: on every other revision of the mainnet chain id the authority checks are switched off"
+						} else {
+							ok = true
+						}
+					}
+				}
+			}
+		}
+		r.check(ok, "C10.R4", "IsMainnet|all-revisions", mv.pos(mv.Decl), "the mainnet test matches every revision of the mainnet chain id (prefix without revision)", why)
+	}
 	r.rule("C10.R5", "ante signature decorators: the result of every VerifySignature call is tested and the failing arm cannot reach next(); in the create-price branch the signature count is compared with the signer count before the loop", 4)
 	r.rule("C10.R6", "errorsmod.Wrap/Wrapf(err, ...) is never returned on a path where err is known nil (an intended rejection would become success)", 100)
 	r.rule("C10.R7", "CheckExocoreGatewayAddr returns nil only when the address equals the configured gateway parameter", 1)
